@@ -22,7 +22,7 @@ RULE = ("chains of 1..6 calls over a pool of 2..3 frames and 2 vectors (float, i
         "byte snapshot of every pool object, np.shares_memory of the result against every pool object, in-place poke of the result and of the operands; "
         "non-trivial = a call with a non-empty receiver that returned a new frame / vector")
 
-FRAME_METHODS = ["select", "unselect", "rename", "filter", "filter_col", "filter_out", "slice", "slice_cols", "slice_off", "head", "tail", "sample", "sort", "sort2",
+FRAME_METHODS = ["select", "unselect", "rename", "filter", "filter_col", "filter_out", "filter_tracked", "filter_out_tracked", "filter_owncol", "slice", "slice_cols", "slice_off", "head", "tail", "sample", "sort", "sort2",
                  "unique", "drop_na", "count", "modify_vector", "modify_array", "modify_list", "modify_scalar", "modify_lambda", "modify_lambda_col",
                  "cbind", "rbind", "rbind_self", "update", "anti_join", "semi_join", "inner_join", "left_join", "full_join", "compare", "group_by", "aggregate",
                  "modify_grouped", "split", "map", "deepcopy", "copy", "to_list_of_dicts", "to_json", "to_pandas", "to_arrow", "to_string",
@@ -187,6 +187,25 @@ def call_frame(rng, df, m, pool):
         mask = np.array([rng.random() < 0.5 for _ in range(n)], dtype=bool); return "filter(mask)", df.filter(mask), []
     if m == "filter_col":
         c = one(); v = df[c][0] if n else 0; return f"filter({c}=first)", df.filter(**{c: v}), []
+    if m in ("filter_tracked", "filter_out_tracked"):
+        # the caller's own mask object (kept, and looked at again afterwards), together with a column=value pair
+        mask = np.array([rng.random() < 0.7 for _ in range(n)], dtype=bool).view(di.Vector)
+        pool.append(Entry(mask, "vector", f"mask{len(pool)}", "mask argument"))
+        c = one(); v = df[c][0] if n else 0
+        f = df.filter if m == "filter_tracked" else df.filter_out
+        form = rng.choice(["vector", "lambda"])
+        out = f(mask, **{c: v}) if form == "vector" else f(lambda x: mask, **{c: v})
+        return f"{m}({form} mask, {c}=first)", out, [len(pool) - 1]
+    if m == "filter_owncol":
+        # a boolean column of the receiver itself as the condition, together with a column=value pair
+        bools = [c for c in cols if df[c].dtype == bool]
+        c = one(); v = df[c][0] if n else 0
+        if not bools:
+            return "filter(no bool column)", df.filter(**{c: v}), []
+        b = rng.choice(bools)
+        form = rng.choice(["column", "lambda"])
+        out = df.filter(df[b], **{c: v}) if form == "column" else df.filter(lambda x: x[b], **{c: v})
+        return f"filter[{form}]({b}, {c}=first)", out, []
     if m == "filter_out":
         mask = np.array([rng.random() < 0.5 for _ in range(n)], dtype=bool); return "filter_out(mask)", df.filter_out(mask), []
     if m == "slice":
@@ -396,7 +415,7 @@ def impl(case):
     return {"events": events, "initial_ncols": [len(arrays_of(e.obj)) for e in pool[:len(case["frames"]) + len(case["vectors"])]]}
 
 
-TABLE_NAME = {"filter_col": "filter", "slice_cols": "slice", "sort2": "sort", "modify_vector": "modify", "modify_array": "modify", "modify_list": "modify",
+TABLE_NAME = {"filter_col": "filter", "filter_tracked": "filter", "filter_out_tracked": "filter_out", "filter_owncol": "filter", "slice_cols": "slice", "sort2": "sort", "modify_vector": "modify", "modify_array": "modify", "modify_list": "modify",
               "modify_scalar": "modify", "modify_lambda": "modify", "modify_lambda_col": "modify", "modify_grouped": "modify", "rbind_self": "rbind",
               "concat_self": "concat", "rank_min": "rank", "rank_max": "rank", "rank_ordinal": "rank", "sort_desc": "sort"}
 NO_RESULT = {"split", "map", "to_list_of_dicts", "to_json", "to_pandas", "to_arrow", "to_string", "tolist", "equal", "get_memory_use"}
